@@ -27,6 +27,19 @@ C10OK(rec) ==
                   IF rec.out = "ok" THEN rec.ret ELSE 0)
 \* C16: reserve quietly does nothing, growth aborts, nothing is written outside the storage
 C16OK(rec) == rec.fail => (C10OK(rec) /\ (rec.out = "ok" /\ HasFail(Norm(rec.ev)) => ToSt(rec.post) = ToSt(rec.pre)))
+ExtraOps == {}
+\* In a closure the records of one state are contiguous (field g on the first of them = how many): the operations the
+\* driver applied in that state must be exactly the model's own OpSet for it - no operation of the model is left
+\* untried on the real code in any reachable state, and the driver tries nothing the model does not know.
+\* (Recs[1] is the trace header: it carries the scope the driver was run with.)
+GroupOps(k, S) ==
+    LET names == {o.op : o \in S}
+        FieldsOf(nm) == DOMAIN (CHOOSE o \in S : o.op = nm)
+        J == {j \in k..(k + Recs[k].g - 1) : Recs[j].op \in names}
+    IN {[f \in FieldsOf(Recs[j].op) |-> Recs[j][f]] : j \in J}
+OpsOK(k) == LET rec == Recs[k]  S == OpSetM(ToSt(rec.pre), Recs[1].maxlen) IN
+            ~Sane(rec.pre) \/ (/\ GroupOps(k, S) = S
+                               /\ \A j \in k..(k + rec.g - 1) : Recs[j].op \in {o.op : o \in S} \cup ExtraOps)
 VARIABLE i
 Judge(rec) ==
     /\ (IF Level # 2 \/ C16OK(rec) THEN TRUE ELSE PrintT(<<"L2FAIL", "C16", rec.id>>))
@@ -34,6 +47,7 @@ Judge(rec) ==
     /\ (IF Level # 1 \/ StepOK(rec) THEN TRUE ELSE PrintT(<<"L1DRIFT", "str", rec.id>>))
 TInit == i = 1
 TNext == i < Len(Recs) /\ i' = i + 1 /\ Judge(Recs[i + 1])
+         /\ (IF Level # 1 \/ Recs[i + 1].g = 0 \/ OpsOK(i + 1) THEN TRUE ELSE PrintT(<<"OPSDIFF", "str", Recs[i + 1].id>>))
 TSpec == TInit /\ [][TNext]_i
 Done == i = Len(Recs) => PrintT(<<"TRACE-END", i>>)
 =============================================================================
